@@ -144,7 +144,7 @@ TTotals ==
     /\ Ev.e = "Totals"
     /\ viol' = viol \o Flat([i \in DOMAIN Ev.pools |->
             LET pl == Ev.pools[i] IN
-            Chk(Inv_C03_PoolCapacity(cfg, Ev.nodes, pl.pool, pl.limits), "Inv_C03_PoolCapacity", SigCapacity(cfg, Ev.nodes, pl.pool, pl.limits))
+            Chk(PoolCapacityOK(cfg, Ev.nodes, pl.pool, pl.limits), "Inv_C03_PoolCapacity", SigCapacity(cfg, Ev.nodes, pl.pool, pl.limits))
             \* cross-check (never a verdict): right after the informers delivered everything Cluster.NodePoolResourcesFor equals the API truth
             \o (IF Ev.fresh /\ pl.ready
                 THEN LET u == PoolUsage(cfg, Ev.nodes, pl.pool, Cap)
